@@ -4,6 +4,13 @@ import irc, gen
 from irc import hx, run_pure, run_traces, compare_trace, Config, Trace, canon_step
 
 
+def pick(res, k, mod):
+    """quick-tier subsampling of a sweep: keeps cell k with probability 1/mod, decided by a hash of (seed, k) - a plain
+    'k % mod' stride can coincide with one axis of the sweep and silently drop all cells with one value of it"""
+    import zlib
+    return zlib.crc32(("%d:%d" % (res.seed, k)).encode()) % mod == 0
+
+
 def unhex_s(h):
     return bytes.fromhex(h).decode("utf-8", "replace")
 
@@ -118,7 +125,8 @@ def check_C14(res):
                 "plus seeded random long pairs (multi-byte, stacked wildcards, literal runs longer than the text); distinct = distinct (pattern,text) "
                 "and distinct masks; each is compared impl vs model AND impl vs extracted glob specification; callers exercised by %d server traces plus a fixed "
                 "population probed with 34 WHO / WHOIS patterns ('?'-only, '*'-only, mixed, comma lists, source and real-name patterns), with an oracle on the implementation: the users "
-                "answered are exactly those the glob semantics selects among the users visible to the asker, and bans / exceptions decide JOIN by the same semantics" % (
+                "answered are exactly those the glob semantics selects among the users visible to the asker, and bans / exceptions decide JOIN by the same semantics; abbreviated masks (nick, nick@host, nick!user) "
+                "set and removed in every combination of forms on the three lists, with the announcement-replay oracle (the stored, announced and removed mask is the completed one)" % (
                     4 if res.tier == "quick" else 5, 4 if res.tier == "quick" else 5, exh, ntr),
         "exhaustive": False, "exhaustive_part": exh,
         "traces_validated_against_impl": l2["traces"],
@@ -172,7 +180,7 @@ def mask_callers_oracle(t, steps):
                             mk, actor, sorted(got), sorted(exp)), {"step": s["k"]}))
         cm.update(s)
         prev = s.get("dump")
-    return fails + join_oracle(t, steps)
+    return fails + join_oracle(t, steps) + mode_oracle(t, steps)
 
 
 def c14_caller_traces(res):
@@ -194,7 +202,31 @@ def c14_caller_traces(res):
         if "," not in mk:
             t.line(0, "WHO " + mk if " " not in mk else "WHO :" + mk)
             t.line(3, "WHO " + mk if " " not in mk else "WHO :" + mk)
-    return [t]
+    # "completed with wildcards before it is stored, announced and compared": abbreviated masks set and removed in every
+    # combination of forms on the three lists, the lists queried, the effect on JOIN observed
+    t2 = Trace("c14-abbrev", Config())
+    for c, n in enumerate(["alice", "bob", "carl", "dora"]):
+        t2.register(c, n)
+    t2.line(0, "JOIN #room")
+    forms = lambda n: [n, n + "@127.0.0.1", n + "!~" + n, n + "!*@*", n + "!~" + n + "@127.0.0.1"]
+    for letter in "Ibe":
+        for who in ("bob", "carl"):
+            for set_form in forms(who)[:3]:
+                for unset_form in forms(who):
+                    t2.line(0, "MODE #room +%s %s" % (letter, set_form))
+                    t2.line(0, "MODE #room -%s %s" % (letter, unset_form))
+                    t2.line(0, "MODE #room %s" % letter)
+    t2.line(0, "MODE #room +i")
+    t2.line(0, "MODE #room +I bob")
+    t2.line(0, "MODE #room -I bob")
+    t2.line(1, "JOIN #room")
+    t2.line(0, "MODE #room +I carl@127.0.0.1")
+    t2.line(2, "JOIN #room")
+    t2.line(0, "MODE #room -i+b dora")
+    t2.line(0, "MODE #room -b dora")
+    t2.line(3, "JOIN #room")
+    t2.line(0, "NAMES #room")
+    return [t, t2]
 
 
 # ====================================================================== generic L2 campaign
@@ -752,7 +784,7 @@ def msg_oracle(t, steps):
 
 def msg_profile():
     return {"weights": dict(PRIVMSG=22, NOTICE=10, JOIN=12, PART=4, KICK=4, NICK=5, MODE=10, AWAY=3, QUIT=1.2, MISC=0.2,
-                            WHO=0.3, WHOIS=0.3, LIST=0.2, WHOWAS=0.2, LUSERS=0.2, BAD=1),
+                            WHO=0.3, WHOIS=0.3, LIST=0.2, WHOWAS=0.2, LUSERS=0.2, BAD=1, REG=1.5),
             "p_close": 0.04, "max_conns": 6, "initial_conns": 3}
 
 
@@ -774,7 +806,12 @@ def msg_sweep(res):
                 t.register(c, n)
                 if n not in ("x", "yan"):
                     t.line(c, "JOIN #r")
+            # registration commands repeated by registered members (refused with 462) change neither identity nor what the masks see
+            t.line(7, "USER zed 8 * :Somebody else")
+            t.line(3, "USER x 8 * :x")
+            t.line(0, "PASS whatever")
             if banned:
+                t.line(0, "MODE #r +b *!~frank@*")     # banned by user name
                 t.line(0, "MODE #r +b frank!*@*")      # a member banned after joining stays on the channel and is silenced
             # refused edits of the mask lists (plain member, outsider, unregistered nick) leave the lists as they are
             for l in (["MODE #r +b q!*@*", "MODE #r -b éva!*@*", "MODE #r +e éva!*@*", "MODE #r -e x!*@127.*", "MODE #r b"] if banned else ["MODE #r +b alice!*@*"]):
@@ -951,7 +988,7 @@ def c07_sweep(res):
             banned, excepted, ionly, invited, invex, full = [(bits >> b) & 1 for b in range(6)]
             for quota_at in (0, 1):
                 k += 1
-                if res.tier == "quick" and k % 4 != (res.seed % 4):
+                if res.tier == "quick" and not pick(res, k, 4):
                     continue
                 cfg = Config(max_joins=1 if quota_at else 3,
                              channels=[dict(name="#c", operators=["alice"], topic="T")])
@@ -1140,7 +1177,7 @@ def c16_traces(res):
 
 
 def c16_oracle(t, steps):
-    fails = join_oracle(t, steps)
+    fails = join_oracle(t, steps) + inv_oracle(t, steps)
     pre_names = set(c["name"] for c in t.cfg.channels)
     prev = None
     for s in sorted(steps, key=lambda s: s["k"]):
@@ -1287,7 +1324,7 @@ def c09_sweep(res):
     for a in RANK_SUBSETS:
         for v in RANK_SUBSETS:
             k += 1
-            if res.tier == "quick" and k % 6 != (res.seed % 6):
+            if res.tier == "quick" and not pick(res, k, 6):
                 continue
             ch = dict(name="#r", flags=("t" if k % 2 else "") + ("i" if k % 3 == 0 else ""))
             for l in "qaohv":
@@ -1316,6 +1353,42 @@ def c09_sweep(res):
             t.line(2, "KICK #r third")
             t.meta = {"actor": a, "victim": v, "flags": ch["flags"]}
             traces.append(t)
+    # "an invitation grants ONE admission": invitations that outlive the channel, are used on a channel the invitee creates,
+    # on an ordinary join, after a KICK, twice - on ordinary and configured channels
+    for k2, (pre, how) in enumerate(itertools.product((False, True), ("recreate", "plain", "twice", "kicked", "parted"))):
+        cfg = Config(channels=[dict(name="#club", topic=None, flags="")] if pre else [])
+        t = Trace("c09-invite-%d" % k2, cfg)
+        for c, n2 in enumerate(["alice", "bob", "carol"]):
+            t.register(c, n2)
+        t.line(0, "JOIN #club")
+        t.line(0, "INVITE bob #club")
+        if how == "recreate":
+            t.line(0, "PART #club")            # the channel dies (or stays empty) with the invitation pending
+            t.line(1, "JOIN #club")            # the invitee (re-)creates it: this is the admission the invitation is good for
+            t.line(1, "PART #club")
+        elif how == "plain":
+            t.line(1, "JOIN #club")
+            t.line(1, "PART #club")
+        elif how == "twice":
+            t.line(0, "INVITE bob #club")
+            t.line(1, "JOIN #club")
+            t.line(1, "PART #club")
+        elif how == "kicked":
+            t.line(1, "JOIN #club")
+            t.line(0, "KICK #club bob")
+        else:
+            t.line(0, "MODE #club +i")
+            t.line(1, "JOIN #club")
+            t.line(1, "PART #club :once")
+        t.line(0, "JOIN #club")
+        t.line(0, "MODE #club +i")
+        t.line(1, "JOIN #club")                # no new invitation: must be refused with 473
+        t.line(0, "NAMES #club")
+        t.line(0, "INVITE bob #club")
+        t.line(1, "JOIN #club")
+        t.line(2, "JOIN #club")
+        t.meta = {"actor": "invite", "victim": how, "flags": "pre" if pre else ""}
+        traces.append(t)
     return traces
 
 
@@ -1324,7 +1397,7 @@ def check_C09(res):
     n = 100 if res.tier == "quick" else 2000
     prof = {"weights": dict(KICK=18, TOPIC=10, INVITE=10, JOIN=12, MODE=14, PART=3, NICK=2, PRIVMSG=1, MISC=0.2, BAD=1),
             "max_conns": 6, "initial_conns": 4}
-    r = l2_campaign(res, "C09", n, 45, prof, traces=sweep, oracle=rank_oracle)
+    r = l2_campaign(res, "C09", n, 45, prof, traces=sweep, oracle=lambda t, st: rank_oracle(t, st) + join_oracle(t, st))
     res.coverage.update({
         "evaluations": r["steps"], "distinct_nontrivial": len(set((t.meta["actor"], t.meta["victim"], t.meta["flags"]) for t in sweep)),
         "rule": "sweep: 32 actor rank subsets x 32 victim rank subsets (set through the configured rank lists of a preconfigured channel) with +t/+i varied, each running TOPIC, INVITE (to an "
@@ -1411,6 +1484,31 @@ def mode_oracle(t, steps):
                 after = s["dump"]
                 chp, cha = prev["channels"].get(chn), after["channels"].get(chn)
                 anns = [(c, l) for c, ls in (s.get("out") or {}).items() for l in ls if re.match(r"^:\S+ MODE %s " % re.escape(chn), l)]
+                # "shown by later MODE queries": the 324 answer to a query reads back as the channel's flags, key and limit -
+                # the n-th parameter belongs to the n-th parametrised letter of the mode string
+                if m.group(2) is None and chp is not None:
+                    for l in (s.get("out") or {}).get(str(ev[1]), []):
+                        mm = re.match(r"^:\S+ 324 \S+ %s (\+\S*)((?: .*)?)$" % re.escape(chn), l)
+                        if not mm:
+                            continue
+                        letters = mm.group(1)[1:]
+                        rest = mm.group(2)
+                        # the list / rank entries follow as " +x value" groups; key and limit come first
+                        head = re.split(r" \+[beIqaohv] ", rest, 1)[0]
+                        params = head.split(" ")[1:] if head else []
+                        shown = {"flags": "".join(sorted(x for x in letters if x not in "kl")), "key": None, "limit": None}
+                        pi = 0
+                        ok_shape = True
+                        for x in letters:
+                            if x in "kl":
+                                if pi >= len(params):
+                                    ok_shape = False
+                                    break
+                                shown["key" if x == "k" else "limit"] = params[pi]
+                                pi += 1
+                        actual = {"flags": "".join(sorted(chp["flags"])), "key": chp["key"], "limit": None if chp["limit"] is None else str(chp["limit"])}
+                        if ok_shape and " " not in (chp["key"] or "") and shown != actual:
+                            fails.append(("MODE %s query answers %r, which reads back as %r; the channel has %r" % (chn, l, shown, actual), {"step": s["k"]}))
                 # nothing but this channel's mode fields may change
                 import copy
                 p2, a2 = copy.deepcopy(prev), copy.deepcopy(after)
@@ -1478,7 +1576,7 @@ def c08_sweep(res):
     k = 0
     for a in RANK_SUBSETS:
         k += 1
-        if res.tier == "quick" and k % 4 != (res.seed % 4):
+        if res.tier == "quick" and not pick(res, k, 4):
             continue
         ch = dict(name="#m", founders=["boss"], voices=["peer"])
         for l in a:
@@ -1721,7 +1819,7 @@ def c02_sweep(res):
         orders.add(perm)
     for perm in sorted(orders):
         k += 1
-        if res.tier == "quick" and k % 3 != res.seed % 3:
+        if res.tier == "quick" and not pick(res, k, 3):
             continue
         for cfgname, cfg in (("plain", Config()), ("pw", Config(password="secret1")), ("twin", Config()), ("twinquit", Config())):
             # "twin": both connections present the SAME user name (hence the same nick!user@host once both ask for zed)
@@ -1764,6 +1862,99 @@ def c02_sweep(res):
     return traces
 
 
+def c02_hung_victim():
+    """schedule / fault part of C02 on the real server: a registered connection that stops reading its socket (its task is stuck
+    writing its own replies) is KILLed by an operator; a newcomer claims the nick while the dead connection still exists; then the
+    dead connection goes away.  Whatever the server decides at each point, a connection that was welcomed under a nick and was
+    not told ERROR must still own that nick afterwards - the end of another connection may not remove it.  Returns (problems, stats)."""
+    import fcntl, termios, struct
+    probs, stats = [], {}
+    okb, outb = build_server_binary()
+    if not okb:
+        return ["the server binary does not build"], stats
+    sv = Server(dict(name="irc.irc", admin_info="A", info="I", motd="M", network="N",
+                     operators=[dict(name="admin", password=irc.pw_hash("operpass"))]), tag="c02")
+    if not sv.listening:
+        sv.stop()
+        return ["the server does not start"], stats
+    try:
+        op = BConn(sv.port)
+        op.send("NICK boss\r\nUSER b 8 * :b\r\nOPER admin operpass\r\n")
+        if not op.wait_for(lambda l: " 381 " in l, tmo=10):
+            return ["operator cannot log in"], stats
+        op.send("".join("JOIN #pub%d\r\n" % k for k in range(60)))
+        pump_all([op], quiet=0.3, tmo=5.0)
+        v = socket.socket()
+        v.setsockopt(socket.SOL_SOCKET, socket.SO_RCVBUF, 4096)
+        v.connect(("127.0.0.1", sv.port))
+        v.sendall(b"NICK vera\r\nUSER v 8 * :v\r\n")
+        _time.sleep(0.4)
+        blob = ("LIST\r\nNAMES\r\nWHO *\r\n" * 6000).encode()
+        v.setblocking(False)
+        sent, t0 = 0, _time.time()
+        while sent < len(blob) and _time.time() - t0 < 3.0:
+            try:
+                sent += v.send(blob[sent:sent + 65536])
+            except (BlockingIOError, OSError):
+                _time.sleep(0.01)
+
+        def queued():
+            try:
+                return struct.unpack("i", fcntl.ioctl(v.fileno(), termios.FIONREAD, b"\0\0\0\0"))[0]
+            except OSError:
+                return -1
+        last, since, t0 = -2, _time.time(), _time.time()
+        while _time.time() - t0 < 8.0:
+            q = queued()
+            if q != last:
+                last, since = q, _time.time()
+            elif _time.time() - since > 0.8 and q > 0:
+                break
+            _time.sleep(0.05)
+        stats["victim_unread_bytes"] = max(last, 0)
+        mark = len(op.lines)
+        op.send("ISON vera\r\n")
+        l = op.wait_for(lambda x: " 303 " in x, tmo=5, start=mark)
+        stats["victim_registered_before_kill"] = bool(l and "vera" in l.split(":", 2)[-1])
+        op.send("KILL vera :gone\r\nPING k1\r\n")
+        op.wait_for(lambda x: x.endswith(":k1"), tmo=5, start=mark)
+        # the newcomer claims the nick while the killed connection still exists
+        n = BConn(sv.port)
+        n.send("NICK vera\r\nUSER n 8 * :newcomer\r\n")
+        first = n.wait_for(lambda x: " 001 " in x or " 433 " in x or x.startswith("ERROR"), tmo=6)
+        welcomed = bool(first and " 001 " in first)
+        stats["newcomer_welcomed_while_killed_connection_exists"] = welcomed
+        # now the killed connection really goes away
+        try:
+            v.close()
+        except OSError:
+            pass
+        _time.sleep(0.8)
+        if not welcomed:
+            # the nick must become free once the old connection is gone
+            n.send("NICK vera\r\n")
+            first = n.wait_for(lambda x: " 001 " in x or x.startswith("ERROR"), tmo=6)
+            welcomed = bool(first and " 001 " in first)
+            if not welcomed:
+                probs.append("after the killed connection closed, its nick cannot be registered by a new connection (answer %r)" % (first,))
+        if welcomed and not n.eof:
+            mark = len(op.lines)
+            op.send("ISON vera\r\n")
+            l = op.wait_for(lambda x: " 303 " in x, tmo=5, start=mark)
+            m2 = len(n.lines)
+            n.send("PRIVMSG vera :to myself\r\nPING self\r\n")
+            n.wait_for(lambda x: x.endswith(":self") or " 451 " in x, tmo=5, start=m2)
+            mine = n.lines[m2:]
+            if not (l and "vera" in l.split(":", 2)[-1]) or any(" 401 " in x for x in mine) or n.eof:
+                probs.append("connection welcomed (001) as 'vera' and never told ERROR no longer owns the nick after ANOTHER connection (the killed, "
+                             "non-reading former owner) ended: ISON answers %r, its own PRIVMSG vera gives %r" % (l, [x for x in mine if " 401 " in x or "PRIVMSG" in x][:2]))
+        for c in (op, n):
+            c.close()
+    finally:
+        sv.stop()
+    return probs, stats
+
+
 def check_C02(res):
     sweep = c02_sweep(res)
     n = 100 if res.tier == "quick" else 2000
@@ -1783,6 +1974,16 @@ def check_C02(res):
         "traces_validated_against_impl": r["traces"],
         "samples": [sweep[0].describe()["events"][6:]],
         "l2": r["summary"]})
+    # fault schedule on the real binary (re-run once before believing an objection: wall-clock dependent)
+    probs, stats = c02_hung_victim()
+    if probs:
+        probs2, stats2 = c02_hung_victim()
+        probs = [p_ for p_ in probs if any(p_[:60] == q_[:60] for q_ in probs2)]
+    for p_ in probs[:2]:
+        res.violation(p_, {"kind": "binary", "scenario": "operator KILLs a connection that does not read its socket; a newcomer claims the nick; the dead connection closes", "stats": stats}, found=True)
+    res.coverage["hung_victim_scenario"] = stats
+    res.coverage["rule"] += ("; plus, on the real binary, the fault schedule 'KILL of a connection stuck writing to a client that does not read, newcomer claims the nick, dead connection "
+                             "closes': a connection welcomed under a nick and never told ERROR still owns it afterwards")
 
 
 # ====================================================================== C04
@@ -1979,6 +2180,43 @@ def c04_kick_traces(res):
                 t.line(1, "NAMES " + chan)
                 t.meta = {"victims": victims, "preconfigured": pre, "founder_stays": founder_stays}
                 traces.append(t)
+    # members that negotiate capabilities in mid-session (CAP LS / REQ / END after joining) and then leave in every way:
+    # they must disappear from all three views like anybody else (seeded C04-d / C06-a)
+    for k2, (caps, how) in enumerate(itertools.product((["CAP END"], ["CAP LS 302", "CAP REQ :multi-prefix", "CAP END"], ["CAP REQ :multi-prefix", "CAP END", "CAP END"]),
+                                                        ("QUIT", "CLOSE", "PART", "KICKED", "NICK"))):
+        t = Trace("C04-cap-%d" % k2, Config(channels=[dict(name="#pre", topic=None, flags="")]))
+        for c, nk in enumerate(["alice", "bob", "carol", "dave", "erin"]):
+            t.register(c, nk)
+        for c in range(4):
+            t.line(c, "JOIN #room,#pre")
+        for l in caps:
+            t.line(1, l)
+            t.line(3, l)
+        t.line(0, "NAMES #room")
+        if how == "QUIT":
+            t.line(1, "QUIT :bye")
+            t.close(3)
+        elif how == "CLOSE":
+            t.close(1)
+            t.line(3, "QUIT")
+        elif how == "PART":
+            t.line(1, "PART #room,#pre")
+            t.line(3, "PART #room")
+            t.line(3, "QUIT")
+        elif how == "KICKED":
+            t.line(0, "KICK #room bob,dave")
+            t.close(1)
+        else:
+            t.line(1, "NICK bobby")
+            t.line(1, "QUIT")
+            t.line(3, "NICK dave2")
+        for viewer in (0, 4):
+            for q in ("NAMES #room", "WHO #room", "NAMES #pre", "WHO #pre", "WHOIS bob,dave,bobby,dave2", "WHO *"):
+                t.line(viewer, q)
+        t.line(2, "PART #room :after")
+        t.line(0, "NAMES #room")
+        t.meta = {"victims": "", "preconfigured": True, "cap": caps, "leaves": how}
+        traces.append(t)
     return traces
 
 
@@ -1996,7 +2234,8 @@ def check_C04(res):
         "rule": "%d seeded random histories of joins (single and comma lists), parts, kicks, nick changes, quits, kills and abrupt closes over 5 channels and up to 6 users; after every membership-changing "
                 "command two randomly chosen users (members and outsiders) ask NAMES/WHO/WHOIS; oracle on the implementation after EVERY step: user.channels and channel.users are one relation, rank lists "
                 "equal the member flags; each NAMES/WHO/WHOIS answer equals the membership relation restricted to what that viewer may see; JOIN/PART/NICK/KICK announcements reach every member exactly once (the departing users included; 24 extra "
-                "KICK histories whose victim list empties the channel, includes the kicker or repeats names, on ordinary and preconfigured channels); "
+                "KICK histories whose victim list empties the channel, includes the kicker or repeats names, on ordinary and preconfigured channels; 15 histories in which members negotiate "
+                "capabilities in mid-session and then leave by QUIT / close / PART / KICK / after a nick change); "
                 "distinct_nontrivial = number of 353/352/319 view lines checked" % n,
         "traces_validated_against_impl": r["traces"],
         "samples": [probing[0].describe()["events"][8:24]],
@@ -2054,6 +2293,10 @@ def torture_lines(rng):
               "+o", "-o", "+l", "-l+l", "+k-k+k", "+b", "+bbbb", "+ovhqa", "18446744073709551615", "18446744073709551616", "99999999999999999999999",
               "-1", "0", "+5", "x!y@z", "*!*@*", "a*bcd", "*aaaaaaaaaaaaaaaaaaaa", "?é", ":", "::", "a:b", "~&@%+#a", "&&&", "@", "+", "#", "&",
               "irc.irc", "*.irc", "\x01ACTION\x01", "tab\tsep", "302", "301", "LS", "REQ", "END", "multi-prefix", "u", "m", "x"]
+    # wildcard-heavy masks whose literal runs overlap, exceed what is left of the text, or only just fit (seeded C05-d)
+    for n in gen.NICKS[:4]:
+        shapes += [n[:2] + "*" + n[1:], n[:1] + "*" + n, n + "*" + n[-1:], "*" + n + "?", n[:-1] + "*" + n[-2:] + "*", "?" * len(n), "?" * (len(n) + 1),
+                   "%s!~%s@127.0.0*0.0.1" % (n, n), "%s!*@*7.0.0.1*1" % n, "*!~%s@*.0.0.1?" % n]
     v = rng.choice(verbs)
     if rng.random() < 0.5:
         v = "".join(ch.lower() if rng.random() < 0.5 else ch for ch in v)
@@ -2158,6 +2401,18 @@ def check_C05(res):
     for _ in range(2000 if res.tier == "quick" else 20000):
         pl.append("N " + hx("".join(rng.choice("ab!@*é.") for _ in range(rng.randint(0, 8)))))
         pl.append("G " + hx("".join(rng.choice("~&@%+#ab é") for _ in range(rng.randint(0, 6)))))
+    # the matcher: every pattern over {a,b,*,?} up to length 4 against every text over {a,b} up to length 4, plus patterns
+    # derived from the text (literal runs after a '*' that are longer than what is left of the text)
+    alpha_p = [""] + ["".join(x) for k in range(1, 5) for x in itertools.product("ab*?", repeat=k)]
+    alpha_t = [""] + ["".join(x) for k in range(1, 5) for x in itertools.product("ab", repeat=k)]
+    for p_ in alpha_p:
+        for t_ in alpha_t:
+            pl.append("W %s %s" % (hx(p_), hx(t_)))
+    for _ in range(3000 if res.tier == "quick" else 40000):
+        t_ = "".join(rng.choice("abé.!@~1") for _ in range(rng.randint(0, 12)))
+        cut = rng.randint(0, len(t_))
+        p_ = t_[:cut] + "*" + t_[max(0, cut - rng.randint(0, 3)):] + rng.choice(["", "*", "?", "a"])
+        pl.append("W %s %s" % (hx(p_), hx(t_)))
     outs = run_pure(pl)
     if res.tier == "thorough":
         outs += run_pure(pl, binary=irc.RSH_REL)
@@ -2173,7 +2428,7 @@ def check_C05(res):
         "rule": "%d torture histories: 55%% of the commands are random verb x arity 0..6 x parameter shapes (existing/absent/duplicated names, empty, 300-character and multi-byte parameters, wildcard-heavy "
                 "masks, numeric extremes, sign-switching mode strings, comma lists with repeats) in every session state, followed by raw-byte torture (invalid UTF-8, 1999/2001-byte lines, NUL, several "
                 "lines per segment, lines split across segments) and liveness probes of bystanders; oracle: no handler abort (panic hook), no stalled connection, no connection closed except by "
-                "QUIT / 464 / 417 / invalid UTF-8 / operator KILL or DIE / the client itself, state invariants after every step; plus %d pure-function cases (parse, normalise, target type) under catch_unwind; "
+                "QUIT / 464 / 417 / invalid UTF-8 / operator KILL or DIE / the client itself, state invariants after every step; plus %d pure-function cases (parse, normalise, target type, wildcard matcher: all patterns over {a,b,*,?} x texts over {a,b} up to length 4 and text-derived overlapping patterns) under catch_unwind; "
                 "plus the abort-site inventory of /repo/src compared with inventory/panic_sites.json; distinct = distinct pure cases + histories" % (n, len(pl)),
         "traces_validated_against_impl": r["traces"], "abort_sites_in_source": inv["count"], "abort_sites_new": inv["new"],
         "samples": [traces[0].describe()["events"][20:30]],
@@ -2756,7 +3011,7 @@ def c12_pairs(res):
             for sharing in (False, True):
                 for topic in (None, "secret topic"):
                     k += 1
-                    if res.tier == "quick" and k % 2 == res.seed % 2:
+                    if res.tier == "quick" and not pick(res, k, 2):
                         continue
                     def build(hidden_present, tid):
                         cfg = Config(operators=[dict(name="admin", password="operpass")])
@@ -2800,7 +3055,7 @@ def check_C12(res):
     n = 60 if res.tier == "quick" else 1000
     prof = {"weights": dict(LIST=8, NAMES=10, WHO=14, WHOIS=12, JOIN=10, MODE=10, UMODE=8, PRIVMSG=4, PART=2, NICK=2), "max_conns": 6, "initial_conns": 4,
             "p_channels": 1.0}
-    r = l2_campaign(res, "C12", n, 45, prof, traces=traces, oracle=lambda t, st: views_oracle(t, st))
+    r = l2_campaign(res, "C12", n, 45, prof, traces=traces, oracle=lambda t, st: views_oracle(t, st) + inv_oracle(t, st))
     impl = r["impl"]
     known = load_known("C12")
     differing = 0
@@ -2988,6 +3243,7 @@ def relay_oracle(t, steps):
     fails = []
     cm = ConnMap(t.cfg.name)
     prev = None
+    away_sent = {}
     for s in sorted(steps, key=lambda s: s["k"]):
         ev = t.events[s["k"]]
         for c, ls in (s.get("out") or {}).items():
@@ -3036,15 +3292,24 @@ def relay_oracle(t, steps):
                         if exp:
                             fails.append(("relay of %r to connection %s re-parses with parameters %r, the originator sent %s" % (ev[2], c, rp, exp),
                                           {"step": s["k"], "relayed": l}))
-            # the AWAY text through 301
+            # the AWAY text through 301: what the away user SENT last (history), not what the server happens to store
             if tok[0] == "OK" and aupper(tok[2]) == "PRIVMSG" and len(tok[3]) >= 2 and actor in prev["users"]:
                 for tg in tok[3][0].split(","):
                     u = prev["users"].get(tg)
                     if u and u.get("away") is not None:
+                        sent_text = away_sent.get(cm.conn_of(tg), u["away"])
                         for l in (s.get("out") or {}).get(str(ev[1]), []):
                             rt = py_tokenize(l.replace("<NOCR>", ""))
-                            if rt[0] == "OK" and rt[2] == "301" and len(rt[3]) >= 2 and rt[3][1] == tg and rt[3][-1] != u["away"]:
-                                fails.append(("301 for %s carries %r, the AWAY text was %r" % (tg, rt[3][-1], u["away"]), {"step": s["k"]}))
+                            if rt[0] == "OK" and rt[2] == "301" and len(rt[3]) >= 2 and rt[3][1] == tg and rt[3][-1] != sent_text:
+                                fails.append(("301 for %s carries %r, the AWAY text it sent last was %r" % (tg, rt[3][-1], sent_text), {"step": s["k"]}))
+            if tok[0] == "OK" and aupper(tok[2]) == "AWAY" and actor in prev["users"]:
+                mine_num = [numeric_of(l.replace("<NOCR>", "")) for l in (s.get("out") or {}).get(str(ev[1]), [])]
+                if "306" in mine_num and tok[3]:
+                    away_sent[ev[1]] = tok[3][0]
+                elif "305" in mine_num:
+                    away_sent.pop(ev[1], None)
+        if ev[0] in ("X", "O"):
+            away_sent.pop(ev[1], None)
         cm.update(s)
         if s.get("dump"):
             prev = s["dump"]
@@ -3856,7 +4121,10 @@ def check_C20(res):
     def cfg_oracle(t, steps):
         # the settings must govern behaviour: welcome burst, and max_joins / predefined channels through the admission rule and the membership relation
         return welcome_oracle(t, steps) + join_oracle(t, steps) + inv_oracle(t, steps)
-    r = l2_campaign(res, "C20", ntr, 40, prof, oracle=cfg_oracle)
+    # max_connections governs how many connections are served at once - and keeps doing so after refusals, closes and
+    # failed registrations (the slot histories of C19, under this property's oracle)
+    slot_traces = c19_slot_traces(res)
+    r = l2_campaign(res, "C20", ntr, 40, prof, traces=slot_traces, oracle=cfg_oracle)
     res.coverage.update({
         "evaluations": len(cases) + len(hs_) + len(ver) + len(started) + r["steps"],
         "distinct_nontrivial": len(set(fl)) + len(set(hs_)) + r["traces"],
@@ -3864,7 +4132,7 @@ def check_C20(res):
                 "and 201-byte nicks, TLS pair in file and on the command line, --name / --network overrides) through the real MainConfig::new vs the rules of the statement (python) and vs Config.config_accept; "
                 "hash validator on mutated hashes; argon2 generate / verify on %d passwords (own password accepted, neighbours rejected); the real binary: %d start-up cases (exit status, listening or not, "
                 "welcome burst contents, max_joins, default modes, -n override), -g round trip through a configured server, one 2-client scene of 23 commands over plain TCP and over TLS compared line by line; "
-                "%d random-configuration histories against the model with a welcome-burst oracle" % (len(cases), len(pws), len(started), ntr),
+                "%d random-configuration histories against the model with a welcome-burst oracle; %d max_connections histories (opens beyond the limit, closes, failed registrations) with the slot-count oracle" % (len(cases), len(pws), len(started), ntr, len(slot_traces)),
         "traces_validated_against_impl": r["traces"], "validation_outcomes": dict(reasons),
         "samples": [{"config": cases[0][0], "cli": cases[0][1], "impl": fi[0][:160]}, started[:3]],
         "binary_cases": started, "binary_objections_rerun": binary_rerun, "l2": r["summary"]})
@@ -3876,7 +4144,7 @@ def check_C20(res):
 import threading
 
 KA_PATTERNS = ["always", "never", "late_ok", "late_bad", "stop_after_2", "odd_token", "chatter_never", "unsolicited_then_never", "stop_after_1_chatter",
-               "slow_register_always"]
+               "slow_register_always", "cap_midsession_always"]
 
 
 def ka_client(port, nick, pattern, ping, pong, t_end, out):
@@ -3925,6 +4193,14 @@ def ka_client(port, nick, pattern, ping, pong, t_end, out):
                 ev.append((now(), "O"))
             except OSError:
                 pass
+        if pattern == "cap_midsession_always" and rec["reg"] is not None and next_chatter is not None:
+            # a registered client asks for the capability list in mid-session and never sends CAP END (legal): other traffic
+            next_chatter = None
+            try:
+                s.sendall(b"CAP LS 302\r\nCAP REQ :multi-prefix\r\n")
+                ev.append((now(), "X"))
+            except OSError:
+                pass
         if pattern in ("chatter_never", "stop_after_1_chatter") and rec["reg"] is not None and t >= next_chatter:
             next_chatter = t + 300
             try:
@@ -3959,7 +4235,7 @@ def ka_client(port, nick, pattern, ping, pong, t_end, out):
                 k = answered
                 tok = m.group(1)
                 reply = None
-                if pattern in ("always", "slow_register_always"):
+                if pattern in ("always", "slow_register_always", "cap_midsession_always"):
                     reply = (tl, "PONG :" + tok)
                 elif pattern == "late_ok":
                     reply = (tl + int(pong * 500), "PONG :" + tok)
@@ -4145,7 +4421,8 @@ def check_C17(res):
         for _ in range(12):
             tok = rng.choice(["x", "a b", ":c", "é", "1" * 50, "", "LALAL", "irc.irc"])
             c = rng.choice([0, 0, 1])
-            t.line(c, rng.choice(["PING :" + tok, "PING " + tok.split(" ")[0] if tok else "PING", "PONG :" + tok, "PONG", "PONG a b"]))
+            t.line(c, rng.choice(["PING :" + tok, "PING " + tok.split(" ")[0] if tok else "PING", "PONG :" + tok, "PONG", "PONG a b",
+                                  "PING :" + tok, "CAP LS 302", "CAP REQ :multi-prefix", "CAP LIST", "CAP END"]))
         traces.append(t)
 
     def echo_oracle(t, steps):
@@ -4510,6 +4787,51 @@ def check_C18(res):
                             break
                     for q in quitters:
                         q.close()
+                # I. KILL and a concurrent claim of the victim's nick while the state lock is busy: the outcome is one of the two
+                #    sequential ones (claim refused and the claimant keeps its nick / claim accepted and the claimant owns the
+                #    new nick), ISON agrees, and the claimant is still served
+                if rd == 2:
+                    oper_ = cs[9]
+                    holders = cs[10:18]
+                    mk = len(oper_.lines)
+                    oper_.send("OPER admin operpass\r\n")
+                    oper_.wait_for(lambda l: " 381 " in l, tmo=10, start=mk)
+                    vics = [BConn(port) for _ in range(4)]
+                    clms = [BConn(port) for _ in range(4)]
+                    for k3 in range(4):
+                        vics[k3].send("NICK vic%d\r\nUSER v 8 * :v\r\n" % k3)
+                        clms[k3].send("NICK clm%d\r\nUSER c 8 * :c\r\n" % k3)
+                    for c in vics + clms:
+                        c.wait_for(lambda l: " 221 " in l, tmo=8)
+                    for k3 in range(4):
+                        for h in holders:
+                            h.send("OPER admin wrongpw%d\r\n" % k3)
+                        _time.sleep(0.03)
+                        oper_.send("KILL vic%d :bye\r\n" % k3)
+                        _time.sleep(0.004 * (k3 + 1))      # the claim queues for the lock right behind the KILL
+                        clms[k3].send("NICK vic%d\r\n" % k3)
+                        _time.sleep(0.6)
+                    pump_all(cs + vics + clms, quiet=0.6, tmo=10.0)
+                    for k3 in range(4):
+                        c = clms[k3]
+                        accepted = any(re.match(r"^:clm%d!\S+ NICK :?vic%d$" % (k3, k3), l) for l in c.lines)
+                        refused = any(" 433 " in l for l in c.lines)
+                        stats["kill_claim_accepted" if accepted else "kill_claim_refused"] += 1
+                        cur = "vic%d" % k3 if accepted else "clm%d" % k3
+                        mk = len(w.lines)
+                        w.send("ISON vic%d clm%d\r\n" % (k3, k3))
+                        l = w.wait_for(lambda x: " 303 " in x, tmo=5, start=mk)
+                        listed = (l or "").split(":", 2)[-1].split()
+                        mk2 = len(c.lines)
+                        c.send("AWAY :still here\r\nPING clm%d\r\n" % k3)
+                        served = bool(c.wait_for(lambda x: x.endswith(":clm%d" % k3), tmo=5, start=mk2)) and any(" 306 " in x for x in c.lines[mk2:])
+                        if accepted == refused or listed != [cur] or not served or c.eof:
+                            bad("KILL vic%d concurrent with NICK vic%d by clm%d: NICK %s, ISON lists %r (a sequential outcome lists exactly [%r]), the claimant is %s" % (
+                                k3, k3, k3, "accepted" if accepted else "refused" if refused else "unanswered", listed, cur,
+                                "served" if served and not c.eof else "no longer served / disconnected"), {"round": rd})
+                            break
+                    for c in vics + clms:
+                        c.close()
                 # E. every live connection is still served
                 for c in cs:
                     c.send("PING alive%d\r\n" % rd)
